@@ -130,7 +130,7 @@ PROPS = {
                       "entry views): usable UTF-8 prefix (an incomplete trailing character is kept, a definitely invalid sequence is "
                       "InvalidData), cut after the last blank-line separator, every completed record parsed with Summary::from_str, "
                       "Ok(all input consumed) with the remainder buffered, or InvalidData with exactly the entries before the first bad record. "
-                      "Independence of the chunking is a THEOREM over write_spec (lib/stream_chunks.rs, theorem_chunking): for every well-formed stream (records without blank lines inside, each followed by a blank line, each parsing) and EVERY partition of its bytes into successive writes - cuts inside the separator, inside a record, inside a multi-byte character - every write is Ok and the final state holds exactly the records in order with an empty buffer, the same as one write of the whole stream (lemma_step: the state after q bytes is a function of q alone; separators are exactly the record ends; split_term of the complete records gives the records back). One axiom: a stream prefix cut inside a multi-byte character is invalid UTF-8 whose valid prefix ends at the previous character and whose tail from_utf8 reports as incomplete (axiom_mid_char). The malformed-entry clause is theorem_chunking_malformed: if record b is the first that does not parse, then under EVERY partition the sequence of writes fails with exactly the entries of records 0..b, and the failing write is the first one that completes record b (lemma_step_bad). The last clause is theorem_stream_print: for a stream of canonical records (record i = the printed form of a canonical entry m_i without its final newline) the stream is well formed, the collected entries are exactly m_0..m_n-1, and render_all of them - what Display for SummaryStream is proved to print on the real function - is the stream, character for character (that a printed entry ends in a newline not preceded by CR is lemma_render_tail; that a final newline does not change str::lines is lemma_lines_final_nl).",
+                      "Independence of the chunking is a THEOREM over write_spec (lib/stream_chunks.rs, theorem_chunking): for every well-formed stream (records without blank lines inside, each followed by a blank line, each parsing) and EVERY partition of its bytes into successive writes - cuts inside the separator, inside a record, inside a multi-byte character - every write is Ok and the final state holds exactly the records in order with an empty buffer, the same as one write of the whole stream (lemma_step: the state after q bytes is a function of q alone; separators are exactly the record ends; split_term of the complete records gives the records back). That a stream prefix cut inside a multi-byte character is invalid UTF-8 and that its longest valid prefix ends at the previous character is PROVED from vstd::utf8 (lemma_mid_char: a strict prefix of one character's encoding is not valid UTF-8, lemma_char_prefix_invalid; the cut is at a leading byte, hence a character boundary). One axiom is left: such a prefix is what from_utf8 reports with error_len() == None (axiom_incomplete_char: the meaning of an uninterpreted std result). The malformed-entry clause is theorem_chunking_malformed: if record b is the first that does not parse, then under EVERY partition the sequence of writes fails with exactly the entries of records 0..b, and the failing write is the first one that completes record b (lemma_step_bad). The last clause is theorem_stream_print: for a stream of canonical records (record i = the printed form of a canonical entry m_i without its final newline) the stream is well formed, the collected entries are exactly m_0..m_n-1, and render_all of them - what Display for SummaryStream is proved to print on the real function - is the stream, character for character (that a printed entry ends in a newline not preceded by CR is lemma_render_tail; that a final newline does not change str::lines is lemma_lines_final_nl).",
         "level_note": VERUS_TRUST + "assumed contracts: str::from_utf8 / Utf8Error::{valid_up_to,error_len} (error_len None == incomplete trailing "
                       "character, an uninterpreted predicate), rfind(\"\\n\\n\"), str::get, split_terminator, Vec::split_off/extend_from_slice (vstd), "
                       "io::Error::new (payload dropped by the shim).",
